@@ -11,6 +11,8 @@
 //   linear     krige(alpha z1 + beta z2) == alpha krige(z1) + beta krige(z2)   (known means combined alike)
 //   permute    reordering the samples changes nothing
 //   translate  adding a common vector to every coordinate (data, targets, grid origin) changes nothing
+//   lincomb    kriging(matLC = A) == A . (kriging of each variable), exact at data where every variable is known
+//              (simple cokriging included: the known mean of combination k is sum_j a_kj m_j)
 //   xvalid     cross-validation at sample i == kriging onto x_i from the data without sample i (unique neighbourhood)
 #include "common/vh.hpp"
 #include "common/ref_linalg.hpp"
@@ -53,6 +55,7 @@ struct Run
   std::string why;
   int nt = 0, nvar = 0;
   std::vector<std::vector<double>> est, sd; // [nvar][nt]   from kriging()
+  std::vector<std::vector<double>> lcE, lcS; // [nlc][nt]   from kriging(..., matLC) when a combination matrix is given
   std::vector<std::vector<int>> nbgh;       // [nt]
   std::vector<MatrixRectangular> W;         // [nt]         from KrigingSystem::getWeights()
   std::vector<int> nred;
@@ -63,7 +66,9 @@ struct Run
   std::vector<refk::Sol> sol;               // kept for the weight layout (eqS, eqV) and Tw
 };
 
-static Run doRun(kg::Case& k, bool wantWeights)
+typedef std::vector<std::vector<double>> LinComb; // [nlc][nvar]
+
+static Run doRun(kg::Case& k, bool wantWeights, const LinComb* lc = nullptr)
 {
   Run R;
   auto dbin  = kg::makeDataDb(k);
@@ -87,6 +92,28 @@ static Run doRun(kg::Case& k, bool wantWeights)
   {
     R.est[iv] = dbout->getColumn(nE[iv]).getVector();
     R.sd[iv]  = dbout->getColumn(nS[iv]).getVector();
+  }
+  // same call with the option matLC: "Define the output as Linear Combinations of the Input Variables; the first
+  // dimension of 'matLC' is the number of Output variables, the second the number of input Variables" (krigcell has no
+  // such argument)
+  if (lc != nullptr && !lc->empty() && !k.perCell)
+  {
+    const int nlc = (int)lc->size();
+    MatrixRectangular M(nlc, nvar);
+    for (int i = 0; i < nlc; i++)
+      for (int j = 0; j < nvar; j++) M.setValue(i, j, (*lc)[i][j]);
+    int e2 = kriging(dbin.get(), dbout.get(), model.get(), neigh.get(), calcul, true, true, false, ndiscs, VectorInt(), &M,
+                     NamingConvention("LinComb"));
+    if (e2) { R.why = "kriging-matLC-error"; return R; }
+    std::vector<std::string> lE, lS;
+    for (auto& nm : namesWithSuffix(dbout.get(), ".estim")) if (nm.compare(0, 7, "LinComb") == 0) lE.push_back(nm);
+    for (auto& nm : namesWithSuffix(dbout.get(), ".stdev")) if (nm.compare(0, 7, "LinComb") == 0) lS.push_back(nm);
+    if ((int)lE.size() != nlc || (int)lS.size() != nlc) { R.why = "columns-matLC"; return R; }
+    for (int i = 0; i < nlc; i++)
+    {
+      R.lcE.push_back(dbout->getColumn(lE[i]).getVector());
+      R.lcS.push_back(dbout->getColumn(lS[i]).getVector());
+    }
   }
   // neighbourhoods and weights
   refk::Setup setup;
@@ -174,9 +201,24 @@ static void run_case(Rng& r, Ctx& c)
                                nvar > 1 ? "multi" : "mono");
   // sub-generators are drawn up front so that every relation sees the same stream whatever happens before it
   Rng rExact = Rng(r.next()), rShift = Rng(r.next()), rLin = Rng(r.next()), rPerm = Rng(r.next()), rTrans = Rng(r.next()),
-      rXv = Rng(r.next());
+      rXv = Rng(r.next()), rLC = Rng(r.next());
 
-  Run base = doRun(k, true);
+  // linear combinations of the variables (several variables only): non-square in general, every row non-trivial
+  LinComb lc;
+  if (nvar >= 2 && rLC.coin(0.7))
+  {
+    int nlc = rLC.irange(1, nvar);
+    if (rLC.coin(0.5)) nlc = std::min(nlc, nvar - 1); // favour non-square
+    lc.assign(nlc, std::vector<double>(nvar, 0.));
+    for (auto& row : lc)
+    {
+      for (auto& v : row) v = rLC.coin(0.2) ? 0. : rLC.uni(-2, 2);
+      row[rLC.irange(0, nvar - 1)] += 1.5;
+    }
+  }
+  const bool skLC = !lc.empty() && k.driftOrder < 0; // simple cokriging of a combination: known means enter the result
+
+  Run base = doRun(k, true, &lc);
   if (!c.truth("base-run", "C02:base-run-failed:" + base.why, base.ok, k.sig())) return;
   const int nt = base.nt;
   const std::vector<refk::DriftFn> basis = k.basis();
@@ -260,10 +302,36 @@ static void run_case(Rng& r, Ctx& c)
     }
     if (!which.empty())
     {
-      Run ex = doRun(e, false);
+      Run ex = doRun(e, false, &lc);
       if (c.truth("exact-run", "C02:exact:run-failed:" + ex.why, ex.ok, k.sig()))
         for (int q = 0; q < (int)which.size(); q++)
         {
+          // exactness of a linear combination: every variable known, without measurement error, at the datum
+          if (!ex.lcE.empty() && !ex.nbgh[q].empty() && ex.usable[q] &&
+              std::find(ex.nbgh[q].begin(), ex.nbgh[q].end(), which[q]) != ex.nbgh[q].end())
+          {
+            int i0 = which[q];
+            bool full = true;
+            for (int jv = 0; jv < nvar; jv++)
+              full = full && refk::defined(k.data.z[i0][jv]) &&
+                     !(!k.data.v.empty() && refk::defined(k.data.v[i0][jv]) && k.data.v[i0][jv] > 0);
+            if (full)
+              for (int i = 0; i < (int)lc.size(); i++)
+              {
+                LD want = 0, te = 0, tq = 0;
+                for (int jv = 0; jv < nvar; jv++)
+                {
+                  want += (LD)lc[i][jv] * (LD)k.data.z[i0][jv];
+                  te += std::fabs(lc[i][jv]) * tolE(ex, q, jv);
+                  tq += std::fabs(lc[i][jv]) * std::sqrt(tolV(ex, q, jv));
+                }
+                if (skLC) c.probe("lincomb-sk-exact");
+                c.close("lincomb-exact-estim", "C02:lincomb:exact:estim:" + cls0, ex.lcE[i][q], (double)want, (double)te + 1e-300,
+                        fmt("datum %d combination %d cond %.3g %s", i0, i, ex.cond[q], k.sig().c_str()));
+                c.check("lincomb-exact-stdev", "C02:lincomb:exact:stdev:" + cls0, ex.lcS[i][q] * ex.lcS[i][q] <= (double)(tq * tq) + 1e-300,
+                        ex.lcS[i][q] * ex.lcS[i][q], (double)(tq * tq) + 1e-300, fmt("datum %d combination %d", i0, i));
+              }
+          }
           int i = which[q];
           if (ex.nbgh[q].empty()) { c.skip("exact:empty-neigh"); continue; }
           if (!ex.usable[q]) { c.skip("exact:illcond"); continue; }
@@ -287,6 +355,31 @@ static void run_case(Rng& r, Ctx& c)
         }
     }
   }
+
+  // ---------------- kriging of a linear combination == the combination of the krigings ----------------
+  // (estimates are linear in the target variable; with a known mean m_j per variable the combination carries
+  //  sum_j a_kj m_j, which is what sum_j a_kj Z*_j contains)
+  if (!base.lcE.empty())
+    for (int it = 0; it < nt; it++)
+    {
+      if (base.nbgh[it].empty()) continue;
+      if (!base.usable[it]) { c.skip("lincomb:illcond"); continue; }
+      for (int i = 0; i < (int)lc.size(); i++)
+      {
+        LD want = 0, te = 0;
+        for (int jv = 0; jv < nvar; jv++)
+        {
+          want += (LD)lc[i][jv] * (LD)base.est[jv][it];
+          te += 2 * std::fabs(lc[i][jv]) * tolE(base, it, jv);
+        }
+        if (skLC) c.probe("lincomb-sk");
+        c.close("lincomb-estim", "C02:lincomb:estim:" + cls, base.lcE[i][it], (double)want, (double)te + 1e-300,
+                fmt("target %d combination %d of %d (nvar %d) cond %.3g %s", it, i, (int)lc.size(), nvar, base.cond[it], k.sig().c_str()));
+        double sl = base.lcS[i][it];
+        c.truth("lincomb-stdev-finite", "C02:lincomb:stdev:not-finite-or-negative:" + cls, !FFFF(sl) && std::isfinite(sl) && sl >= 0,
+                fmt("target %d combination %d stdev %g", it, i, sl));
+      }
+    }
 
   // ---------------- drift shift ----------------
   if (nbfl > 0)
